@@ -237,8 +237,9 @@ type StreamConn struct {
 	FailWrites int // inject: fail the next n writes after accepting a prefix
 	// FailWriteNth > 0: this side's n-th Write (1-based) fails after accepting a prefix of what it was given
 	// (possibly nothing); the writes after it are served as usual.
-	FailWriteNth int
-	writeN       int
+	FailWriteNth  int
+	FailWriteZero bool // the injected failure lets nothing out (else a random prefix)
+	writeN        int
 	// TransientAt > 0: when exactly that many octets have been handed to this side's reader, its next
 	// Read fails once with a temporary, non-timeout error (an interrupted system call); the read before
 	// is cut short so that it ends there. Reading carries on afterwards as if nothing had happened.
@@ -442,6 +443,9 @@ func (o *writeOp) Done(now time.Time) {
 		if c.FailWrites > 0 {
 			c.FailWrites--
 			k := c.n.K.Env.IntN(len(p) + 1)
+			if c.FailWriteZero {
+				k = 0
+			}
 			p = p[:k]
 			o.err = ErrInject
 			c.n.K.BumpLocked("fault.writeerr")
